@@ -2,8 +2,8 @@
 
 The same history (edits of sources and tracked variables, each followed by a build) is run
 through the real serve() (E3, restart flavour) and through Engine.v inside Coq; compared per
-build: which steps executed their command, which were hash-checked and skipped, and the final
-state (SUCCEEDED or not) of every step."""
+build: which steps executed their command, which were hash-checked and skipped, the final state
+(SUCCEEDED or not) of every step, and which output files changed content."""
 from __future__ import annotations
 
 import random
@@ -107,9 +107,12 @@ def correspondence(ctx):
             log = [f"({labels[l]}, true)" for l in sorted(ran)] + [f"({labels[l]}, false)" for l in sorted(skipped - ran)]
             est = [f"({labels[l]}, {common.coq_bool(states[l] == 'SUCCEEDED')})" for l in sorted(labels)]
             src, env = worlds[k]
+            prev = results[k - 1].files if k > 0 else {}
+            outs = sorted(p for s in steps for p in s["out"])
+            chg = [f"({pid[p]}, {common.coq_bool(res.files.get(p) != prev.get(p))})" for p in outs]
             phases.append(f"({common.coq_list([f'({a}, {b})' for a, b in src])}, "
                           f"{common.coq_list([f'({a}, {b})' for a, b in env])}, "
-                          f"{common.coq_list(log)}, {common.coq_list(est)})")
+                          f"{common.coq_list(log)}, {common.coq_list(est)}, {common.coq_list(chg)})")
             ctx.count("engine_builds")
         proj = common.coq_list([
             f"mkStep {s['id']} {common.coq_list([str(pid[p]) for p in s['inp']])} "
@@ -126,6 +129,6 @@ def correspondence(ctx):
         t2 = term.replace("wf proj && check_hist", "trace_hist")
         got = common.eval_terms(ctx, "enginediag", HEADER, [t2])
         ctx.add_failure("correspondence", "E3:Engine", "E3:Engine:executed-or-skipped-set",
-                        "model/Engine.v and the real system disagree on which steps ran, were skipped or "
-                        f"ended SUCCEEDED; model did (log, states) per build: {(got[0] or '')[:1500]}",
+                        "model/Engine.v and the real system disagree on which steps ran, were skipped, "
+                        f"ended SUCCEEDED or which outputs changed; model did (log, states, changes) per build: {(got[0] or '')[:1500]}",
                         witness={"case": co.case_json(project, history), "model_term": term})
